@@ -255,14 +255,37 @@ impl Prop for C03 {
                         let expected: Result<mc::JavaResponse, ()> = match winner {
                             None => Err(()),
                             Some(1) => Ok(norm_java(m.java.as_ref().unwrap().expected())),
-                            Some(2) => Ok(mc::JavaResponse::from_bedrock_response(m.bedrock.as_ref().unwrap().expected())),
+                            // (reference value written out here, not produced by the conversion under test; the Java-shaped
+                            // response has no place for Bedrock's textual protocol version: the numeric field is not compared)
+                            Some(2) => {
+                                let b = m.bedrock.as_ref().unwrap().expected();
+                                Ok(mc::JavaResponse {
+                                    game_version: b.version_name.clone(),
+                                    protocol_version: 0,
+                                    players_maximum: b.players_maximum,
+                                    players_online: b.players_online,
+                                    players: None,
+                                    description: b.name.clone(),
+                                    favicon: None,
+                                    previews_chat: None,
+                                    enforces_secure_chat: None,
+                                    server_type: mc::Server::Bedrock,
+                                })
+                            }
                             Some(4) => Ok(m.v1_6.as_ref().unwrap().expected()),
                             Some(8) => Ok(m.v1_4.as_ref().unwrap().expected()),
                             _ => Ok(m.vb1_8.as_ref().unwrap().expected()),
                         };
                         let tag = format!("auto:{}", ENTRIES[entry as usize]);
+                        let got_norm = x.outcome.ok().cloned().map(|mut g| {
+                            if winner == Some(2) {
+                                g.protocol_version = 0;
+                            }
+                            g
+                        });
                         match (&x.outcome, &expected) {
-                            (Outcome::Ok(got), Ok(exp)) => {
+                            (Outcome::Ok(_), Ok(exp)) => {
+                                let got = got_norm.as_ref().unwrap();
                                 if got != exp {
                                     let path = first_diff(&to_json(exp), &to_json(got)).unwrap_or_default();
                                     ctx.violation(
